@@ -319,6 +319,21 @@ class Check(PropertyCheck):
                     if mc != v:
                         bad('mask_differs_from_contains', f'pixel ({box[0] + i},{box[2] + j}) mask {rv} = {v}/{n * n}, contains() counts {mc}')
                         return V
+        # "for every pixel": a pixel just OUTSIDE the returned array carries the value 0, so none of its sample
+        # centres may be a member (the ring of pixels around the box; samples on the boundary do not count)
+        H, W = real['shape']
+        ring = [(j, i) for j in (-1, H) for i in range(-1, W + 1)] + [(j, i) for j in range(H) for i in (-1, W)]
+        # (for large n a subset of the sample positions: the outermost and the middle ones of each axis)
+        idx = list(range(n)) if n <= 4 else sorted({0, n // 2, n - 1})
+        for (j, i) in ring:
+            for a in idx:
+                for kk in idx:
+                    x = Fraction(box[0] + i) - Fraction(1, 2) + Fraction(2 * a + 1, 2 * n)
+                    y = Fraction(box[2] + j) - Fraction(1, 2) + Fraction(2 * kk + 1, 2 * n)
+                    ins, mg = spec_raw_any(d, x, y)
+                    if ins and mg >= EPS:
+                        bad('member_sample_outside_mask', f'pixel ({box[0] + i},{box[2] + j}) lies outside the mask array {box} but its sample ({float(x)},{float(y)}) is a member')
+                        return V
         return V
 
     def nontrivial(self, case, real):
